@@ -1,1 +1,51 @@
-From PM Require Import Model.JsonCodec.
+(* C05 — JSON serialisation of documents, slices, marks and steps is lossless.
+   Theorems over the value-level codec (Model/JsonCodec.v): decoding what was encoded gives back the very
+   same value, hence an equal object, the identical JSON again, and — for steps — the identical effect and
+   position map on every document.  json.dumps/json.loads themselves and the absence of aliasing are outside
+   the value model (exercised / monitored on the implementation by harness/c05.py). *)
+From Coq Require Import List String.
+From PM Require Import Model.Data Model.Mark Model.Tree Model.StepMap Model.Step Model.JsonCodec Proofs.JsonProofs.
+Import ListNotations.
+Local Open Scope string_scope.
+
+Section S.
+Variable s : schema.
+(* names are dict keys: pairwise distinct; the text type is called "text" *)
+Hypothesis mark_names : names_distinct mt_name (s_marks s).
+Hypothesis node_names : names_distinct nt_name (s_nodes s).
+Hypothesis text_name : nt_name (ntype_of s (s_text s)) = "text".
+Hypothesis text_in_range : s_text s < List.length (s_nodes s).
+
+Theorem C05_mark_roundtrip : forall m,
+  m_ty m < List.length (s_marks s) -> attrs_normal (mt_attrs (mtype_of s (m_ty m))) (m_attrs m) ->
+  mark_from_json s (mark_to_json s m) = Ok m.
+Proof. exact (mark_roundtrip s mark_names). Qed.
+
+Theorem C05_node_roundtrip : forall n, node_wf s n -> node_from_json s (node_to_json s n) = Ok n.
+Proof. exact (node_roundtrip s mark_names node_names text_name text_in_range). Qed.
+
+Theorem C05_fragment_roundtrip : forall l, nodes_wf s l -> frag_from_json s (Some (frag_to_json s l)) = Ok l.
+Proof. exact (frag_roundtrip s mark_names node_names text_name text_in_range). Qed.
+
+Theorem C05_slice_roundtrip : forall sl, slice_wf s sl -> slice_from_json s (Some (slice_to_json s sl)) = Ok sl.
+Proof. exact (slice_roundtrip s mark_names node_names text_name text_in_range). Qed.
+
+(* all eight built-in step types, dispatched by their published stepType name *)
+Theorem C05_step_roundtrip : forall st, step_wf s st -> step_from_json s (step_to_json s st) = Ok st.
+Proof. exact (step_roundtrip s mark_names node_names text_name text_in_range). Qed.
+
+(* consequently a decoded step has the identical effect and map on every document *)
+Corollary C05_step_same_effect : forall st st', step_wf s st -> step_from_json s (step_to_json s st) = Ok st' ->
+  forall doc, apply s st' doc = apply s st doc /\ get_map s st' = get_map s st.
+Proof.
+  intros st st' Hw H. rewrite (step_roundtrip s mark_names node_names text_name text_in_range st Hw) in H.
+  inversion H; subst. auto.
+Qed.
+End S.
+
+Print Assumptions C05_mark_roundtrip.
+Print Assumptions C05_node_roundtrip.
+Print Assumptions C05_fragment_roundtrip.
+Print Assumptions C05_slice_roundtrip.
+Print Assumptions C05_step_roundtrip.
+Print Assumptions C05_step_same_effect.
